@@ -24,8 +24,18 @@ def content(kind, rnd):
         return b""
     if kind == "small":
         return bytes(rnd.choice(b"abcdefgh \n") for _ in range(rnd.randrange(1, 5000)))
-    base = bytes(rnd.randrange(256) for _ in range(1777))
-    return (base * 200)[: 131072 * 2 + rnd.randrange(0, 70000)]
+    kind = rnd.randrange(3)
+    if kind == 0:
+        base = bytes(rnd.randrange(256) for _ in range(1777))
+        return (base * 200)[: 131072 * 2 + rnd.randrange(0, 70000)]
+    if kind == 1:
+        # two blocks with the same literal statistics: a few thousand nearly incompressible literals, the rest repeats of
+        # them (the second block can reuse what the first one left behind in the compressor)
+        unit = bytes(rnd.randrange(250) for _ in range(rnd.randrange(2000, 6000)))
+        block = (unit * 70)[:131072]
+        return block + block[1000:] + block[:1000] + unit[:rnd.randrange(1, 3000)]
+    # skewed text-like bytes without long repeats, a little over two blocks
+    return bytes(int(rnd.random() ** 3 * 60) + 32 for _ in range(131072 * 2 + rnd.randrange(1, 5000)))
 
 
 def put_prior(path, prior):
